@@ -423,6 +423,28 @@ pub fn run(ctx: &Ctx) -> i32 {
         st.count(&format!("random_{name}"));
         check_case(ctx, st, &tmp, 100_000 + i, &tcs, s);
     });
+    // large inputs through every channel: many lines / long lines / sizes around I/O buffer boundaries
+    {
+        let mut big: Vec<Vec<String>> = vec![];
+        let mut rng = Rng::new(seed, 0x123_0000);
+        let ab = gen::alphabet("abc");
+        big.push((0..1000).map(|_| (0..1 + rng.below(3)).map(|_| rng.pick(&ab).clone()).collect::<String>()).collect());
+        big.push((0..2).map(|_| (0..400).map(|_| rng.pick(&ab).clone()).collect::<String>()).collect());
+        for target in [8192usize, 8193, 65536] {
+            // total file size exactly around `target` bytes: lines of 63 characters + newline
+            let lines = target / 64;
+            let mut v: Vec<String> = (0..lines).map(|k| format!("{:063}", k % 7)).collect();
+            let rest = target % 64;
+            if rest > 1 {
+                v.push("z".repeat(rest - 1));
+            }
+            big.push(v);
+        }
+        par_for(&ctx.run, big.len(), |i, st| {
+            st.count("large_channel_inputs");
+            check_case(ctx, st, &tmp, 200_000 + i, &big[i], Settings::new(if i % 2 == 0 { 0 } else { REP }));
+        });
+    }
     // RegExpBuilder::from_file vs from(lines), in process (no spawn): many line-safe inputs incl. lines
     // starting / ending with blanks, BOM-like and other ignorable characters
     let n = if ctx.thorough { 60_000 } else { 6_000 };
